@@ -230,6 +230,7 @@ fn main() {
 
     let mut code = String::from("pub mod cases {\n#![allow(unused, clippy::all, deprecated)]\nuse lrpar::{Lexeme, LexParseError, NonStreamingLexer};\nuse lrlex::{DefaultLexerTypes, DefaultLexeme};\npub struct CaseInfo { pub name: &'static str, pub y: &'static str, pub l: &'static str, pub kind: &'static str, pub recoverer: &'static str, pub alphabet: &'static str, pub maxlen: usize, pub param: bool, pub lexerdef: fn() -> lrlex::LRNonStreamingLexerDef<DefaultLexerTypes<u32>>, pub parse: for<'a, 'b> fn(&'a dyn NonStreamingLexer<'b, DefaultLexerTypes<u32>>) -> (Option<String>, Vec<LexParseError<u32, DefaultLexerTypes<u32>>>), pub token_epp: fn(cfgrammar::TIdx<u32>) -> Option<&'static str>, pub lflags: &'static [(&'static str, bool)], pub rule_consts: &'static [(&'static str, u32)], pub tok_consts: &'static [(&'static str, u32)], pub generated: &'static str }\n");
     let mut infos = String::from("pub fn all() -> Vec<CaseInfo> { vec![\n");
+    let mut failed = String::from("pub struct FailedCase { pub name: &'static str, pub y: &'static str, pub l: &'static str, pub lflags: &'static [(&'static str, bool)], pub err: &'static str }\npub const FAILED: &[FailedCase] = &[\n");
     for (i, c) in cases.iter().enumerate() {
         let yp = out.join(format!("case{}.y", i));
         let lp = out.join(format!("case{}.l", i));
@@ -298,9 +299,20 @@ fn main() {
                 _ => lb,
             };
         }
-        let res = lb.build();
-        if let Err(e) = res {
-            panic!("ctrt build.rs: case {} ({}) failed to build: {}\n{}\n{}", i, c.name, e, c.y, c.l);
+        // A case the real builders reject (or panic on) is not a reason to stop: it is recorded and
+        // the binary compares it with the run-time pipeline's verdict on the same sources.
+        let res = std::panic::catch_unwind(std::panic::AssertUnwindSafe(|| lb.build().map(|_| ()).map_err(|e| e.to_string())));
+        let failure = match res {
+            Ok(Ok(())) => None,
+            Ok(Err(e)) => Some(e),
+            Err(_) => Some("the builder panicked".to_string()),
+        };
+        if let Some(e) = failure {
+            writeln!(failed, "FailedCase {{ name: {:?}, y: {:?}, l: {:?}, lflags: &{:?}, err: {:?} }},", c.name, c.y, c.l, c.lflags, e).ok();
+            if i == 0 {
+                std::fs::write(out.join("case0.y.rs"), "mod case0_y { }").unwrap();
+            }
+            continue;
         }
         // wrapper
         writeln!(code, "pub mod case{} {{\n#![allow(unused, clippy::all, deprecated)]\nuse lrpar::{{Lexeme, LexParseError, NonStreamingLexer}};\nuse lrlex::{{DefaultLexerTypes, DefaultLexeme}};", i).ok();
@@ -335,7 +347,9 @@ fn main() {
         .ok();
     }
     infos.push_str("] }\n");
+    failed.push_str("];\n");
     code.push_str(&infos);
+    code.push_str(&failed);
     code.push_str("}\n");
     // the schedule-exploration variant of case 0's parser: the lazily initialised parser data is
     // re-bound from std's OnceLock to an instrumented stand-in with the same API
@@ -343,6 +357,10 @@ fn main() {
     let n_once = gen0.matches("::std::sync::OnceLock").count();
     let shim = gen0.replace("::std::sync::OnceLock", "crate::shim::OnceLock").replace("mod case0_y", "mod sched_y");
     std::fs::write(out.join("sched.y.rs"), shim).unwrap();
+    if n_once == 0 {
+        code.push_str("pub mod sched {\npub const ONCELOCK_MENTIONS: usize = 0;\npub fn parse<'a, 'b>(_lexer: &'a dyn lrpar::NonStreamingLexer<'b, lrlex::DefaultLexerTypes<u32>>) -> String { String::new() }\n}\n");
+    } else {
     code.push_str(&format!("pub mod sched {{\n#![allow(unused, clippy::all, deprecated)]\ninclude!(concat!(env!(\"OUT_DIR\"), \"/sched.y.rs\"));\npub const ONCELOCK_MENTIONS: usize = {};\npub fn parse<'a, 'b>(lexer: &'a dyn lrpar::NonStreamingLexer<'b, lrlex::DefaultLexerTypes<u32>>) -> String {{ let (t, e) = sched_y::parse(lexer); format!(\"{{:?}} {{}}\", t, e.len()) }}\n}}\n", n_once));
+    }
     std::fs::write(out.join("cases.rs"), code).unwrap();
 }
